@@ -212,7 +212,7 @@ def gen(shard, rng, tier):
         # all-zero entropy -> "abandon ... about" -> m/44'/60'/0'/0/0 = 0x9858EfFD232B4033E47d90003D41EC34EcaEda94
         for prefix in ("0x0", "0xabc"):
             yield {"j": "stuck", "profile": "release", "x": {"cls": "stuck-source", "prefix": prefix, "j": shard["j"]},
-                   "steps": [{"cli": {"argv": ["new", "--vanity-prefix", prefix, "-j", str(shard["j"])], "ent": {"MODE": "zero", "CAP": shard["cap"]}, "timeout": 900}}]}
+                   "steps": [{"cli": {"argv": ["new", "--vanity-prefix", prefix, "-j", str(shard["j"])], "ent": {"MODE": "zero", "CAP": shard["cap"], "CAP_SLACK": 0}, "timeout": 900}}]}
             break
     else:
         for p in ("0xg", "0xG1", "0x1g", "0x-1", "0x 1", "0xx", "0x0x1", "0x1.", "0xé", "0x1١", "0x1_", "0x+1", "0xAG", "0xabcdefg"):
